@@ -487,6 +487,12 @@ int main(int argc, char** argv)
         uint64_t idx = from + i * stride + offset;
         if (time_ms > 0 && (i & 63) == 0 && (now_s() - t0) * 1000 > time_ms) break;
         gsim_ctl::set_meta(verif_seed, idx);
+        static const char* trace_run = getenv("GSIM_TRACE_RUN");  // debugging: trace one search run
+        FILE* search_trace = nullptr;
+        if (trace_run && strtoull(trace_run, nullptr, 10) == idx) {
+            search_trace = fopen("/var/tmp/gsim-search-trace.txt", "w");
+            gsim_ctl::set_trace(search_trace);
+        }
         gsim_ctl::RunStats forked_st;
         if (fork_each) {
             // process-wide state (static trip lines) makes runs order dependent:
@@ -541,6 +547,10 @@ int main(int argc, char** argv)
             for (int d = 1; d < 8; d++) fork_faults[d] += extra[d];
         } else {
             gsim_ctl::run_search(w, mix64(base + idx * 0xD1B54A32D192ED03ull));
+        }
+        if (search_trace) {
+            gsim_ctl::set_trace(nullptr);
+            fclose(search_trace);
         }
         const auto& st = fork_each ? forked_st : gsim_ctl::last_stats();
         if (dump_dir && !fork_each && idx % dump_every == 0) {
